@@ -1,6 +1,6 @@
 (* C06 — property theorems only. *)
 From Coq Require Import List Bool ZArith.
-From V Require Import C01.Model C06.Model C06.Proofs C06.Search C06.SearchProofs.
+From V Require Import C01.Model C06.Model C06.Proofs C06.Search C06.SearchProofs C06.LexLeader C06.LexCheck.
 Import ListNotations.
 Open Scope Z_scope.
 
@@ -71,10 +71,23 @@ Theorem unconstrained_good_is_common : forall P G f, NoDup (keys G) -> (good P G
 Proof. exact good_is_common. Qed.
 Print Assumptions unconstrained_good_is_common.
 
+(* --- symmetry breaking: constraints that come from a stabiliser chain of the automorphism group select exactly one
+   member of every class { m o a | a automorphism }, for every injective placement m.  groupb / chainb are evaluated
+   per pattern on the constraints the implementation derived (correspondence obligation). --- *)
+Theorem constraints_select_one_per_class : forall Vs As cons base,
+  groupb Vs As = true -> chainb Vs As cons base = true ->
+  forall m, (forall x y, In x Vs -> In y Vs -> m x = m y -> x = y) ->
+  (exists a, In a (Af As) /\ cons_sat_fn cons (fun x => m (a x))) /\
+  (forall a a', In a (Af As) -> In a' (Af As) -> cons_sat_fn cons (fun x => m (a x)) -> cons_sat_fn cons (fun x => m (a' x)) ->
+     forall x, In x Vs -> a x = a' x).
+Proof. exact one_representative_per_class. Qed.
+Print Assumptions constraints_select_one_per_class.
+
 (* non-vacuity: a path a-b-c in a 4-cycle: 8 embeddings, 4 up to the reflection of the path *)
 Definition ex_P := {| g_nodes := [(0, 1); (1, 1); (2, 1)]; g_edges := [(0, 1, 1); (1, 2, 1)] |}.
 Definition ex_G := {| g_nodes := [(10, 1); (11, 1); (12, 1); (13, 1)]; g_edges := [(10, 11, 1); (11, 12, 1); (12, 13, 1); (13, 10, 1)] |}.
 Example ex_counts : List.length (all_isos ex_P ex_G) = 8%nat /\ List.length (autos ex_P) = 2%nat /\
   check_full ex_P ex_G (find_isomorphisms ex_P ex_G [] (fun l _ => hd 0 l)) = true /\
-  check_sym ex_P ex_G (find_isomorphisms ex_P ex_G [(0, 2)] (fun l _ => hd 0 l)) = true.
+  check_sym ex_P ex_G (find_isomorphisms ex_P ex_G [(0, 2)] (fun l _ => hd 0 l)) = true /\
+  groupb (keys ex_P) (autos ex_P) = true /\ chainb (keys ex_P) (autos ex_P) [(0, 2)] [0] = true.
 Proof. vm_compute. repeat split. Qed.
